@@ -178,7 +178,7 @@ def sim_op(r, shadow, modes=SIM_MODES):
     return ["simulate", mode, r.choice(["model", "iface"]), r.getrandbits(48) | 1, npts, k / 64.0, netgen.nice(r.uniform(0.3, 4.0), 3)]
 
 
-def gen_history(r, n_ops, alphabet, param_rule_stratum=False, allow_ode=False):
+def gen_history(r, n_ops, alphabet, param_rule_stratum=False, allow_ode=False, param_rule_freqs=("repeated",)):
     """Generates (base model, op list). The shadow evolution is simulated here so that every op is valid when it runs."""
     for _attempt in range(200):
         shadow = base_model(r)
@@ -192,7 +192,7 @@ def gen_history(r, n_ops, alphabet, param_rule_stratum=False, allow_ode=False):
             shadow["reactions"][ma[0]]["pd"] = {"k": "kr"}
             shadow["rules"].append({"type": "assignment", "target": "kr",
                                     "expr": ["/", ["num", 3.0], ["+", ["num", 2.0], ["sp", shadow["species"][0]]]],
-                                    "freq": "repeated"})
+                                    "freq": r.choice(list(param_rule_freqs)) if len(param_rule_freqs) > 1 else param_rule_freqs[0]})
     base = copy.deepcopy(shadow)
     ops = []
     for _ in range(n_ops):
@@ -773,9 +773,11 @@ class Machine:
             return False
         pa, pb = named_params(A), named_params(B)
         for p in self.shadow["params"]:
-            if p in self.ruled_params:
-                continue
-            if pa.get(p) != pb.get(p):
+            # (rule-assigned parameters included: whatever value the first model holds right now, the second holds too)
+            same_ = pa.get(p) == pb.get(p) or (pa.get(p) != pa.get(p) and pb.get(p) != pb.get(p))
+            if not same_ and p in self.ruled_params and pa.get(p) is not None and pb.get(p) is not None:
+                same_ = rm.close(pa[p], pb[p], 1e-13)      # a computed value written as decimal text may lose its last digit
+            if not same_:
                 self.bad(cls, sig, what="parameter value differs", parameter=p, a=pa.get(p), b=pb.get(p))
                 return False
         fa = model_fingerprint(A, names, states)
@@ -867,7 +869,10 @@ class Machine:
         after_p = named_params(other)
         def _same(a, b):
             return set(a) == set(b) and all((a[k] == b[k]) or (a[k] != a[k] and b[k] != b[k]) for k in a)
-        if not _same(before_s, after_s) or not _same(before_p, after_p):
+        # (a rule-assigned parameter is moved by the harness's own simulations of the other object, not by the edit)
+        bp = {k: v for k, v in before_p.items() if k not in self.ruled_params}
+        ap = {k: v for k, v in after_p.items() if k not in self.ruled_params}
+        if not _same(before_s, after_s) or not _same(bp, ap):
             self.bad(cls, dict(sig, independence=how), what="editing one object changed the other's values",
                      before=[before_s, before_p], after=[after_s, after_p])
             return delta
@@ -876,7 +881,7 @@ class Machine:
             return delta
         after_run = simulate(other, None, sop)
         d = compare_runs(before_run, after_run, names, False)
-        if d:
+        if d and not self.ruled_params:     # (with a rule-assigned parameter the first of the two runs itself moves the model)
             self.bad(cls, dict(sig, independence=how), what2="editing one object changed the other's seeded output", **d)
         return delta
 
@@ -1007,7 +1012,8 @@ class Machine:
                 self.live.py_initialize()
             self.live.write_sbml_model(path1, stochastic_model=bool(op[1]))
             r = seeds.rng(self.case.get("pseed", 1), "w2", i)
-            simulate(self.live, None, sim_op(r, self.shadow))
+            if not self.ruled_params:       # (a simulation moves a rule-assigned parameter: then the model did change)
+                simulate(self.live, None, sim_op(r, self.shadow))
             self.live.write_sbml_model(path2, stochastic_model=bool(op[1]))
         except Exception as e:
             self.bad("sbml_write_failed", {"stochastic_export": bool(op[1])}, error=f"{type(e).__name__}: {str(e)[:300]}")
